@@ -978,6 +978,17 @@ fn main() {
 '''
 
 
+def alt_graph(reqs):
+    """the `requires` graph given to the second validate id ("alt") of the struct generated for `reqs`:
+    the same graph with the field labels mirrored (i -> n-1-i): acyclic iff `reqs` is, different from it in general,
+    so an ordering that consults another id's `requires` is observable"""
+    n = len(reqs)
+    out = [[] for _ in range(n)]
+    for i, rs in enumerate(reqs):
+        out[n - 1 - i] = sorted(n - 1 - j for j in rs)
+    return out
+
+
 def graph_bin_rs(items):
     """items: [(gid, reqs)]"""
     lines = ["// generated by lib/props/c11.py: one derived account set per `requires` graph",
@@ -989,15 +1000,22 @@ def graph_bin_rs(items):
         lines.append("#[derive(AccountSet)]")
         lines.append("#[account_set(skip_client_account_set, skip_cpi_account_set, skip_default_idl)]")
         lines.append("#[validate(arg = &mut Vec<usize>)]")
+        lines.append("#[validate(id = \"alt\", arg = (&mut Vec<usize>,))]")
         lines.append("struct G%s {" % gid)
+        alt = alt_graph(reqs)
         for i in range(n):
             rq = ", requires = [%s]" % ", ".join("f%d" % j for j in reqs[i]) if reqs[i] else ""
             lines.append("    #[validate(arg = &mut *arg%s)]" % rq)
+            rq = ", requires = [%s]" % ", ".join("f%d" % j for j in alt[i]) if alt[i] else ""
+            lines.append("    #[validate(id = \"alt\", arg = &mut *arg.0%s)]" % rq)
             lines.append("    f%d: Inner<%d>," % (i, i))
         lines.append("}")
         init = ", ".join("f%d: Inner::<%d>" % (i, i) for i in range(n))
         calls.append("    { let mut v = Vec::new(); let mut ctx = Context::default(); let mut s = G%s { %s }; "
-                     "s.validate_accounts(&mut v, &mut ctx).unwrap(); "
+                     "AccountSetValidate::<(&mut Vec<usize>,)>::validate_accounts(&mut s, (&mut v,), &mut ctx).unwrap(); "
+                     "println!(\"OBS %sx {}\", v.iter().map(|x| x.to_string()).collect::<Vec<_>>().join(\" \")); }" % (gid, init, gid))
+        calls.append("    { let mut v = Vec::new(); let mut ctx = Context::default(); let mut s = G%s { %s }; "
+                     "AccountSetValidate::<&mut Vec<usize>>::validate_accounts(&mut s, &mut v, &mut ctx).unwrap(); "
                      "println!(\"OBS %s {}\", v.iter().map(|x| x.to_string()).collect::<Vec<_>>().join(\" \")); }" % (gid, init, gid))
     lines.append("fn main() {")
     lines += calls
@@ -1101,6 +1119,80 @@ def write_package(fixed, extra, replay_graph=None):
         write_if_changed(os.path.join(GEN_DIR, "examples", name + ".rs"), graph_bin_rs([(name, reqs)]))
     write_if_changed(os.path.join(GEN_DIR, "Cargo.toml"), cargo_toml(bins, [n for n, _ in CYCLIC]))
     return bins, gid_of
+
+
+def run_single_graph_bins(graphs, prefix, timeout=3600):
+    """each graph as its own binary (struct with the graph on the default id and its mirror on id "alt"), --keep-going;
+    returns {k: {"": obs of default id, "x": obs of alt id}} for the binaries that built and ran"""
+    bdir = os.path.join(GEN_DIR, "src", "bin")
+    os.makedirs(bdir, exist_ok=True)
+    for fn in os.listdir(bdir):
+        if fn != "c11_main.rs":
+            os.remove(os.path.join(bdir, fn))
+    names = []
+    for k, reqs in enumerate(graphs):
+        name = "c11_%s%03d" % (prefix, k)
+        write_if_changed(os.path.join(bdir, name + ".rs"), graph_bin_rs([("%s%05d" % (prefix, k), reqs)]))
+        names.append(name)
+    write_if_changed(os.path.join(GEN_DIR, "Cargo.toml"), cargo_toml(["c11_main"] + names, [n for n, _ in CYCLIC]))
+    C.sh(["cargo", "build", "--offline", "--bins", "--keep-going", "--message-format=short", "-j", str(C.NPROC)],
+         cwd=GEN_DIR, timeout=timeout)
+    bindir = os.path.join(TARGET_DIR, "debug")
+    res = {}
+    for k, reqs in enumerate(graphs):
+        exe = os.path.join(bindir, names[k])
+        src = os.path.join(bdir, names[k] + ".rs")
+        if not os.path.exists(exe) or os.path.getmtime(exe) < os.path.getmtime(src):
+            continue
+        rc, out = C.sh([exe], timeout=60)
+        if rc != 0:
+            continue
+        r = {}
+        for line in out.split("\n"):
+            if line.startswith("OBS "):
+                t = line.split()
+                r["x" if t[1].endswith("x") else ""] = [int(x) for x in t[2:]]
+        res[k] = r
+    return res
+
+
+def probe_small_graphs(timeout=3600):
+    """fallback when the generated package no longer builds as a whole (a derive that aborts on some structs takes its
+    whole binary down): every graph on <= 3 fields as its own binary, built with --keep-going; the ones that still
+    compile are run, so a wrong order on a struct that does compile is still exhibited as a concrete input.
+    returns (graph_cases, impl_obs, n_built, n_total)"""
+    graphs = [g for n in range(0, 4) for g in all_dags(n)]
+    bdir = os.path.join(GEN_DIR, "src", "bin")
+    for fn in os.listdir(bdir):
+        if fn != "c11_main.rs":
+            os.remove(os.path.join(bdir, fn))
+    names = []
+    for k, reqs in enumerate(graphs):
+        name = "c11_p%03d" % k
+        write_if_changed(os.path.join(bdir, name + ".rs"), graph_bin_rs([("p%05d" % k, reqs)]))
+        names.append(name)
+    write_if_changed(os.path.join(GEN_DIR, "Cargo.toml"), cargo_toml(["c11_main"] + names, [n for n, _ in CYCLIC]))
+    C.sh(["cargo", "build", "--offline", "--bins", "--keep-going", "--message-format=short", "-j", str(C.NPROC)],
+         cwd=GEN_DIR, timeout=timeout)
+    bindir = os.path.join(TARGET_DIR, "debug")
+    gcs, obs, built = [], {}, 0
+    for k, reqs in enumerate(graphs):
+        exe = os.path.join(bindir, "c11_p%03d" % k)
+        src = os.path.join(bdir, "c11_p%03d.rs" % k)
+        if not os.path.exists(exe) or os.path.getmtime(exe) < os.path.getmtime(src):
+            continue
+        rc, out = C.sh([exe], timeout=60)
+        if rc != 0:
+            continue
+        built += 1
+        for line in out.split("\n"):
+            if line.startswith("OBS "):
+                t = line.split()
+                obs["g" + t[1]] = [int(x) for x in t[2:]]
+        gid = "p%05d" % k
+        gcs.append(("g" + gid, enc_graph(reqs)))
+        gcs.append(("g" + gid + "x", enc_graph(alt_graph(reqs))))
+    return gcs, obs, built, len(graphs)
 
 
 def build_package(bins, timeout=7200):
@@ -1256,13 +1348,20 @@ def custom_main(args, tier, seed):
             return 0
         ints = payload["case"]
         d = decode_case(ints)
-        bins, gid_of = write_package(fixed, extra, replay_graph=d[1] if d[0] == "graph" else None)
-        build_package(bins)
+        impl_alt = None
         if d[0] == "graph":
-            gid = gid_of[tuple(tuple(r) for r in d[1])]
-            b = [x for x in bins if x != "c11_main" and ("G%s " % gid) in open(os.path.join(GEN_DIR, "src", "bin", x + ".rs")).read()]
-            impl = run_graph_bins(b).get(gid)
+            # the graph on the default validate id of its own struct, and on the second id of the mirrored struct
+            write_package([], [])
+            r = run_single_graph_bins([d[1], alt_graph(d[1])], "q")
+            impl = r.get(0, {}).get("")
+            impl_alt = r.get(1, {}).get("x")
+            print("as default id of `struct S` below                     :", impl, "->", predicate(ints, impl) if impl is not None else "did not build")
+            print("as id \"alt\" of the struct whose default id is mirrored :", impl_alt, "->", predicate(ints, impl_alt) if impl_alt is not None else "did not build")
+            if impl is None or (impl_alt is not None and predicate(ints, impl_alt) and not predicate(ints, impl)):
+                impl = impl_alt
         else:
+            bins, gid_of = write_package(fixed, extra)
+            build_package(bins)
             impl = run_main([("replay", ints)], "replay").get("replay")
         model = run_model_cases([("replay", ints)], "c11", "replay").get("replay") if model_ok else None
         shipped = run_model_cases([("replay", ints)], "c11s", "replay").get("replay") if model_ok else None
@@ -1307,6 +1406,9 @@ def custom_main(args, tier, seed):
             gid = gid_of[tuple(tuple(r) for r in reqs)]
             graph_cases.append(("g" + gid, enc_graph(reqs)))
             tags["g" + gid] = "graph"
+            # the same struct's second validate id carries the mirrored graph
+            graph_cases.append(("g" + gid + "x", enc_graph(alt_graph(reqs))))
+            tags["g" + gid + "x"] = "graph"
         for cid, ints, reqs in corpus_graphs:
             tags[cid] = "corpus"
         gobs = run_graph_bins(bins)
@@ -1317,6 +1419,21 @@ def custom_main(args, tier, seed):
         impl.update(run_main(run_cases, tier))
     except C.CheckError as e:
         broken.append(("generated package build / run against %s" % C.REPO, str(e)[-5000:]))
+        # search for a concrete failing input among the structs that still compile
+        try:
+            graph_cases, pobs, nb, nt = probe_small_graphs()
+            corpus_graphs = []
+            for cid, _ in graph_cases:
+                tags[cid] = "graph"
+            impl.update(pobs)
+            C.log("fallback: %d of %d single-struct binaries (graphs on <= 3 fields, two validate ids each) still build and run" % (nb, nt))
+            if os.path.exists(os.path.join(TARGET_DIR, "debug", "c11_main")):
+                try:
+                    impl.update(run_main(run_cases, tier))
+                except C.CheckError:
+                    pass
+        except Exception as e2:  # noqa: BLE001
+            C.log("fallback probe failed: %s" % str(e2)[-300:])
     corpus_cases = [(cid, ints) for cid, ints, _ in corpus_graphs]
     cases = corpus_cases + graph_cases + run_cases
     for n, ok in cyc.items():
